@@ -5,6 +5,7 @@ import os
 import tempfile
 
 import numpy as np
+from mc.ref.linalg import allclose as _close
 import sympy
 
 from mc.engine import Section, jdump
@@ -161,7 +162,7 @@ def step(case):
         if all(isinstance(e, list) for e in sn):
             amps = np.array([complex(e[0], e[1]) for e in sn])
             p = np.asarray(w.get_probabilities(), dtype=float).reshape(-1)
-            if p.shape != amps.shape or not np.allclose(p, np.abs(amps) ** 2, atol=1e-9):
+            if p.shape != amps.shape or not _close(p, np.abs(amps) ** 2, atol=1e-9):
                 return {"ok": False, "msg": "get_probabilities %s is not |amplitude|^2 of the current amplitudes" % when, "expected": str((np.abs(amps) ** 2).tolist()), "observed": str(p.tolist()),
                         "sig": "probabilities:stale", "key": None}
         return None
@@ -255,7 +256,7 @@ def step(case):
     if all(isinstance(e, list) for e in snap):
         amps = np.array([complex(e[0], e[1]) for e in snap])
         p = np.asarray(wf.get_probabilities(), dtype=float).reshape(-1)
-        if not np.allclose(p, np.abs(amps) ** 2, atol=1e-9) or abs(p.sum() - 1) > 1e-6:
+        if not _close(p, np.abs(amps) ** 2, atol=1e-9) or abs(p.sum() - 1) > 1e-6:
             return {"ok": False, "msg": "get_probabilities is not |a|^2 summing to 1", "expected": str((np.abs(amps) ** 2).tolist()), "observed": str(p.tolist()), "sig": "probabilities", "key": None}
         op = wf.get_outcome_probs()
         nq = int(np.log2(len(snap)))
@@ -303,7 +304,7 @@ def dicke_case(case):
         return {"ok": False, "msg": "dicke_state(%s, %s) accepted" % (n, k), "sig": "dicke:accepted-invalid"}
     p = np.asarray(wf.get_probabilities(), dtype=float).reshape(-1)
     exp = np.array([1.0 / comb(n, k) if bin(i).count("1") == k else 0.0 for i in range(2 ** n)])
-    ok = len(p) == 2 ** n and np.allclose(p, exp, atol=1e-12)
+    ok = len(p) == 2 ** n and _close(p, exp, atol=1e-12)
     r = {"ok": bool(ok), "nt": 0 < k < n, "out": "dicke", "ops": 2}
     if ok and k > 0:
         # history: an accepted mutation of the returned object must not leak into the next call with the same arguments
@@ -314,7 +315,7 @@ def dicke_case(case):
         except Exception:  # noqa: BLE001
             pass
         p2 = np.asarray(Wavefunction.dicke_state(n, k).get_probabilities(), dtype=float).reshape(-1)
-        if not np.allclose(p2, exp, atol=1e-12):
+        if not _close(p2, exp, atol=1e-12):
             return {"ok": False, "msg": "dicke_state(%d,%d) called again after mutating the first result is no longer the Dicke state" % (n, k),
                     "observed": "support %d" % int((p2 > 1e-15).sum()), "sig": "dicke:shared-state"}
     if not ok:
@@ -342,9 +343,9 @@ def flip_case(case):
     w = Wavefunction(a.copy())
     fw = flip_wavefunction(w)
     got = np.asarray(fw.amplitudes).reshape(-1)
-    if not np.allclose(got, np.array([a[L.bitrev(i, n)] for i in range(2 ** n)])) or not np.allclose(np.asarray(w.amplitudes).reshape(-1), a):
+    if not _close(got, np.array([a[L.bitrev(i, n)] for i in range(2 ** n)])) or not _close(np.asarray(w.amplitudes).reshape(-1), a):
         return {"ok": False, "msg": "flip_wavefunction wrong / modified its argument", "sig": "flip:wavefunction"}
-    if not np.allclose(np.asarray(flip_wavefunction(fw).amplitudes).reshape(-1), a):
+    if not _close(np.asarray(flip_wavefunction(fw).amplitudes).reshape(-1), a):
         return {"ok": False, "msg": "flip_wavefunction twice is not the identity", "sig": "flip:wf-involution"}
     return {"ok": True, "nt": n >= 2, "ops": 5, "out": "n%d" % n}
 
@@ -364,7 +365,7 @@ def flip_history_case(case):
             except Exception as e:  # noqa: BLE001
                 return {"ok": False, "msg": "flip_amplitudes on %d qubits after flips of widths %s raised %s: %s" % (n, case["sizes"][:k], type(e).__name__, e), "sig": "flip-history:exception", "ops": k}
             want = exp if arg is not v.astype(float) and not np.iscomplexobj(arg) else exp + 0.5j
-            if out.shape != exp.shape or not np.allclose(out, want):
+            if out.shape != exp.shape or not _close(out, want):
                 return {"ok": False, "msg": "flip_amplitudes on %d qubits (after flips of widths %s) is not the bit reversal" % (n, case["sizes"][:k]), "sig": "flip-history:perm", "ops": k}
         a = np.zeros(2 ** n, dtype=complex)
         a[1] = 0.6
@@ -372,7 +373,7 @@ def flip_history_case(case):
         if n == 1:
             a = np.array([0.6, 0.8j])
         got = np.asarray(flip_wavefunction(Wavefunction(a.copy())).amplitudes).reshape(-1)
-        if not np.allclose(got, np.array([a[L.bitrev(i, n)] for i in range(2 ** n)])):
+        if not _close(got, np.array([a[L.bitrev(i, n)] for i in range(2 ** n)])):
             return {"ok": False, "msg": "flip_wavefunction on %d qubits (after widths %s)" % (n, case["sizes"][:k]), "sig": "flip-history:wavefunction", "ops": k}
         k += 1
     return {"ok": True, "nt": True, "ops": k, "out": "hist%d" % len(case["sizes"])}
@@ -394,7 +395,7 @@ def wide_case(case):
     if wf.n_qubits != n or len(wf) != N:
         return {"ok": False, "msg": "n_qubits / len of a %d-qubit wavefunction" % n, "observed": str((wf.n_qubits, len(wf))), "sig": "wide:size"}
     pr = np.asarray(wf.get_probabilities(), dtype=float).reshape(-1)
-    if not np.allclose(pr, np.abs(a) ** 2, atol=1e-12) or abs(pr.sum() - 1) > 1e-9:
+    if not _close(pr, np.abs(a) ** 2, atol=1e-12) or abs(pr.sum() - 1) > 1e-9:
         return {"ok": False, "msg": "probabilities of a %d-qubit wavefunction" % n, "sig": "wide:probabilities"}
     op = wf.get_outcome_probs()
     if len(op) != N or any(len(k_) != n for k_ in list(op)[:3] + list(op)[-3:]):
@@ -416,13 +417,13 @@ def wide_case(case):
         if accepted:
             before = before.copy()
             before[idx] = val_
-        if not np.allclose(now, before, atol=0) or abs(np.sum(np.abs(now) ** 2) - 1) > 1e-6:
+        if not _close(now, before, atol=0) or abs(np.sum(np.abs(now) ** 2) - 1) > 1e-6:
             return {"ok": False, "msg": "after %s assignment wf[%d] on %d qubits the object is not %s" % ("an accepted" if accepted else "a rejected", idx, n, "updated and normalised" if accepted else "exactly as before"), "sig": "wide:rollback"}
     try:
         wf[250:260] = np.full(10, 0.5)
         return {"ok": False, "msg": "slice assignment that breaks normalisation was accepted on %d qubits" % n, "sig": "wide:slice-accepted"}
     except ValueError:
-        if not np.allclose(np.asarray(wf.amplitudes).reshape(-1), before, atol=0):
+        if not _close(np.asarray(wf.amplitudes).reshape(-1), before, atol=0):
             return {"ok": False, "msg": "rejected slice assignment left the %d-qubit object modified" % n, "sig": "wide:slice-rollback"}
     return {"ok": True, "nt": True, "ops": 8, "out": "n%d" % n}
 
